@@ -854,3 +854,58 @@ theorem nonvacuous_heap_put_boundary :
 end heap
 
 end Ytk.C06
+
+/-! ## gap7a: "later layers win" made explicit (C06 × C04) -/
+namespace Ytk.C06
+open Ytk.Overlay
+
+/-- the merged view after one more layer is the merge of the merged view so far with that layer -/
+theorem merged_snoc (o : ListStrategy) (s : Overlay) (l : String) (c : AMap Node) :
+    merged o (s ++ [(l, c)]) = mergeC o (merged o s) c := by
+  simp [merged, mergeAll, mergeC, List.foldl_append]
+
+/-- the merged view of a single layer is that layer -/
+theorem merged_single (o : ListStrategy) (l : String) (c : AMap Node) (hc : (Node.cont c).WF) :
+    merged o [(l, c)] = c := by
+  simp only [merged, mergeAll, List.map_cons, List.map_nil, List.foldl_cons, List.foldl_nil]
+  exact mergeKvs_nil_left o hc.sorted
+
+/-- LAST WINS, at a member: when the LAST layer holds a non-null scalar or a value of another kind
+    than the merged view of the earlier layers at member `k` (anything but container-on-container and
+    list-on-list, which merge), the merged view holds the last layer's value there — whatever any
+    earlier layer says; a null in the last layer lets the earlier value through; a member the last
+    layer lacks is what the earlier layers give. -/
+theorem merged_last_wins (o : ListStrategy) (s : Overlay) (l k : String) (c : AMap Node) (hc : AMap.Sorted c) :
+    (∀ v, AMap.get? c k = some v → hasValue v = true →
+      (∀ x, AMap.get? (merged o s) k = some x → ¬ (x.isCont = true ∧ v.isCont = true) ∧ ¬ (x.isList = true ∧ v.isList = true)) →
+      AMap.get? (merged o (s ++ [(l, c)])) k = some v) ∧
+    (∀ x, AMap.get? c k = some Node.null → AMap.get? (merged o s) k = some x → hasValue x = true →
+      AMap.get? (merged o (s ++ [(l, c)])) k = some x) ∧
+    (AMap.get? c k = none → AMap.get? (merged o (s ++ [(l, c)])) k = AMap.get? (merged o s) k) := by
+  rw [merged_snoc, mergeC]
+  refine ⟨fun v hv hval hk => ?_, fun x hn hx hval => ?_, fun hn => ?_⟩
+  · rw [get?_mergeKvs o _ c (keys_nodup_of_sorted hc), hv]
+    cases hx : AMap.get? (merged o s) k with
+    | none => rfl
+    | some x =>
+      obtain ⟨h1, h2⟩ := hk x hx
+      simp only [mergeEntry]
+      rw [mergeNode_other o x v h1 h2, coalesce_eq, if_pos hval]
+  · rw [get?_mergeKvs o _ c (keys_nodup_of_sorted hc), hn, hx]
+    simp only [mergeEntry]
+    have h1 : ¬ (x.isCont = true ∧ Node.null.isCont = true) := by simp [Node.null, Node.isCont]
+    have h2 : ¬ (x.isList = true ∧ Node.null.isList = true) := by simp [Node.null, Node.isList]
+    rw [mergeNode_other o x Node.null h1 h2, coalesce_eq]
+    have : hasValue Node.null = false := (hasValue_false_iff _).mpr rfl
+    simp [this, hval]
+  · rw [get?_mergeKvs o _ c (keys_nodup_of_sorted hc), hn]
+    cases AMap.get? (merged o s) k <;> rfl
+
+/-- non-vacuity on `exState`: `top` overrides `base` at `a.b`, `env`'s null lets it through -/
+theorem nonvacuous_last_wins :
+    Ytk.lookup (merged .meld (exState.take 2)) "a.b" = some (i "2") ∧
+    Ytk.lookup (merged .meld exState) "a.b" = some (i "2") ∧
+    Ytk.lookup (merged .meld exState) "a.c" = some (i "4") := by
+  decide +kernel
+
+end Ytk.C06
